@@ -71,6 +71,11 @@ func World(prop string, r *rng.R, n int) Result {
 		res.Failures = append(res.Failures, fails...)
 	}
 	res.Notes["operation_outcomes"] = stats
+	if prop == "C10" {
+		fs, found := unknownRPCs(wr)
+		res.Failures = append(res.Failures, fs...)
+		res.Notes["msg_rpcs_without_a_generator"] = found
+	}
 	if prop == "C07" {
 		// the other entry points of the middleware: handshake, acknowledgement, timeout callbacks, the ICS-4 send path
 		ctx, _ := wr.w.S.Ctx.CacheContext()
@@ -162,11 +167,26 @@ func (wr *worldRunner) runCase(prop string, p profile, r *rng.R, stats map[strin
 		m := world.Msg{Kind: "UpdateParams", Signer: sim.Authority, Max: rng.Pick(r, []uint32{16, 17, 64, 300, 65536})}
 		ops = append(ops, planned{world.Op{Kind: "msg", Msg: m}, pktInfo{shape: "msg/UpdateParams"}})
 	}
+	if (prop == "C08" || prop == "C19") && r.Chance(5) {
+		for _, m := range manyPaused(r) {
+			ops = append(ops, planned{world.Op{Kind: "msg", Msg: m}, pktInfo{shape: "msg/" + m.Kind}})
+		}
+	}
 	for i := 0; i < nops; i++ {
 		x := r.Intn(p.wRecv + p.wMsg + p.wDeposit + p.wQuery)
 		switch {
 		case x < p.wRecv:
 			pkt, info := g.genPacket()
+			if info.spec != nil && pkt.ICS != nil && info.spec.rawMem == nil && info.spec.fwd.kind == "hyp" && info.denom != "" && p.wDeposit > 0 && r.Chance(10) {
+				// a Hyperlane forwarding that names the collateral token of ANOTHER denomination, while the orbiter account
+				// happens to hold enough of that denomination (anybody can send it there)
+				if other, ok := otherDenom(info.denom); ok && info.amount.Sign() > 0 && info.amount.BitLen() < 80 {
+					info.spec.fwd.token, info.spec.fwd.domain, info.spec.fwd.hook = []byte(wr.w.S.HypTokens[other]), 1, nil
+					info.shape += "/fwd-hyp-token-of-another-denom-funded"
+					info.expectOK = false
+					ops = append(ops, planned{world.Op{Kind: "deposit", To: sim.OrbiterAddr(), Denom: other, Amount: new(big.Int).Mul(info.amount, big.NewInt(2))}, pktInfo{shape: "deposit"}})
+				}
+			}
 			if info.spec != nil && pkt.ICS != nil {
 				if info.spec.rawMem != nil {
 					pkt.ICS.Memo = *info.spec.rawMem
@@ -477,7 +497,7 @@ var sigProp = map[string]string{
 	"recv-panic": "C14", "msg-panic": "C14",
 	"orbiter-balance-grew": "C01", "orbiter-keeps-funds": "C01",
 	"error-ack-state-changed": "C03", "success-despite-failure": "C03", "success-without-forwarding": "C03",
-	"accepted-foreign-denom": "C16", "fee-accepted-invalid": "C04", "fee-refused-valid": "C04",
+	"accepted-foreign-denom": "C16", "forwarded-coin-differs": "C16", "fee-accepted-invalid": "C04", "fee-refused-valid": "C04",
 	"nonpositive-out": "C02", "ledger-delta": "C02", "supply-delta": "C02", "other-denom-touched": "C02",
 	"mismatched-route-accepted": "C05", "bridge-request": "C05", "replace-request": "C05",
 	"unauthorized-accepted": "C10", "unauthorized-changed-state": "C10", "refused-msg-changed-state": "C10", "authority-refused": "C10",
@@ -634,6 +654,29 @@ func (o *oracle) checkMoves(op world.Op, info pktInfo, obs world.OpObs, desc str
 	if d < 0 {
 		fs = append(fs, o.fail("accepted-foreign-denom", "a packet whose token is not a returning Noble-native denomination was processed", desc))
 		return fs
+	}
+	// C16: the coin handed to the route is the coin ICS-20 credited (no denomination-changing action here)
+	for _, c := range obs.Trace {
+		got := ""
+		switch c.Kind {
+		case "cctp":
+			got = c.Args[4].Str()
+		case "hyptransfer":
+			for dn, id := range o.wr.w.S.HypTokens {
+				if id == c.Args[1].Str() {
+					got = dn
+				}
+			}
+		case "banksend":
+			if items := c.Args[2].Items(); len(items) == 1 {
+				got = items[0].Items()[0].Str()
+			}
+		default:
+			continue
+		}
+		if got != info.denom {
+			fs = append(fs, o.fail("forwarded-coin-differs", fmt.Sprintf("ICS-20 credited %s but the route was asked to take %q", info.denom, got), desc))
+		}
 	}
 	A := info.amount
 	// expected deltas per tracked account
